@@ -18,7 +18,7 @@ rsync -a --exclude build --exclude .git /verif/ $ISO/
 sed -i "s#=> /repo#=> $WT#" $ISO/harness/go.mod
 mkdir -p $ISO/build
 for c in $CHECKS; do (cd $ISO && VERIF_REPO=$WT ./check $c quick 2>&1 | tail -6); done
-mkdir -p $(dirname $WT)/replays-$P && cp $ISO/evidence/replay/$P-* $(dirname $WT)/replays-$P/ 2>/dev/null
+mkdir -p $(dirname $WT)/replays-$P && for c in $CHECKS; do cp $ISO/evidence/replay/$c-* $(dirname $WT)/replays-$P/ 2>/dev/null; done
 rm -rf $ISO
 for h in $HOOKS; do
   if git -C $WT ls-files --error-unmatch $h >/dev/null 2>&1; then git -C $WT checkout -- $h; else rm -f $WT/$h; fi
